@@ -19,6 +19,8 @@ import NumbersModel.Gen.TrCache
 import NumbersModel.Gen.TrTok
 import NumbersModel.Gen.TrLoad
 import NumbersModel.Gen.TrIwa
+import NumbersModel.Gen.TrCellRec
+import NumbersModel.Drv.CellRecord
 import NumbersModel.Drv.Loader
 import NumbersModel.Drv.Tokenizer
 import NumbersModel.Drv.Addressing
@@ -347,6 +349,14 @@ def handleTrIwa (ws : List String) : Option String :=
         (get_archive_info_and_remainder e.parseInfo d.toList))
     | _ => none
 
+/-- `cell dec <hex>` (the request of Drv/CellRecord.lean): the field walk of `Cell._from_storage` as TRANSLATED from the source,
+    then the model's dispatch / `_extras` (`CellRecord.finishDecode`) -/
+def handleTrCell : List String → Option String
+  | ["dec", b] => do
+    let b ← parseBytes b
+    pure (showPyM showDecoded (from_storage_fields CellRecord.readD128 CellRecord.readDouble b >>= CellRecord.finishDecode b))
+  | _ => none
+
 def trDispatch (line : String) : String :=
   let ws := (line.splitOn " ").filter (· ≠ "")
   let r : Option String := match ws with
@@ -367,6 +377,7 @@ def trDispatch (line : String) : String :=
     | "tok" :: rest => handleTrTokenize rest
     | "loader" :: rest => handleTrLoader rest
     | "iwa" :: rest => handleTrIwa rest
+    | "cell" :: rest => handleTrCell rest
     | _ => none
   match r with
   | some s => s
